@@ -32,11 +32,19 @@ def check(repo, run, tier):
     g(mr.child_kwargs_keys, repo, run, 'C03.R4c')
     g(check_flag_tags, repo, run, 'C03.R5', tags={'!force', '!weak'})
     g(unitrules.list_prefilter_guard, repo, run, 'C03.R5')
+    g(unitrules.adoption_order_table, repo, run, 'C03.R4')
     g.done()
+
+
+def _early_propagation(r):
+    ov = in_func(r, 'ConfigNodeMeta.__call__', "                if 'priority' in kwargs:\n                    value._propagate_priority()\n", "")
+    r2 = r.with_overrides(ov)
+    return in_func(r2, 'ConfigNodeMeta.__call__', "                for arg_name in _kwargs_to_inherit:", "                if 'priority' in kwargs:\n                    value._propagate_priority()\n                for arg_name in _kwargs_to_inherit:")
 
 
 def mutants(repo):
     return [
+        Mutant('priority-pushed-down-before-it-is-stored', lambda r: _early_propagation(r), ['C03.R4']),
         Mutant('gt-to-ge', lambda r: in_func(r, 'ConfigNode.ayns.has_priority_over', "return self.ayns.priority > other.ayns.priority", "return self.ayns.priority >= other.ayns.priority"), ['C03.R1']) if False else
         Mutant('equal-ignores-if_equal', lambda r: in_func(r, 'ConfigNode.ayns.has_priority_over', "return if_equal", "return False"), ['C03.R1']),
         Mutant('priority-compare-reversed', lambda r: in_func(r, 'ConfigNode.ayns.has_priority_over', "self.ayns.priority > other.ayns.priority", "self.ayns.priority < other.ayns.priority"), ['C03.R1']),
